@@ -604,22 +604,58 @@ func checkNamespace(c *Ctx) {
 		c.check(okNew, "namespace.rename", rn.ID+":enter-new", p.Pos(rn.Decl.Pos()),
 			"the entry enters readDirMap[NewParent] as Dirent{same inode, NewName, same type} and lookupTree[(NewParent, NewName)] with the lookup entry removed from the old key",
 			"Rename no longer inserts Dirent{Inode: source inode, Name: NewName, Type: source type} under NewParent and the source's lookup entry under (NewParent, NewName): listing (walked by commit) and lookups disagree after the rename")
-		// directory link move
-		var mv *ast.IfStmt
+		// directory link move: the two link-count steps (in Rename or in a helper of the receiver it calls) are guarded by
+		// "the entry is a directory" and "the parents differ" — read from the guard atoms, so a nested if, an early
+		// return on the negation and a helper are the same thing
+		dt, _ := importedConst(p, "pkg/fuse", "github.com/jacobsa/fuse/fuseutil", "DT_Directory")
+		// guards already in force where the moved entry is inserted under its new name (always executed on the success
+		// path): anything beyond them, the two conditions and the found flags of the node look-ups narrows the move
+		refAtoms := map[string]guardAtom{}
 		ast.Inspect(rn.Decl.Body, func(n ast.Node) bool {
-			if ifs, ok := n.(*ast.IfStmt); ok {
-				d := nos(describeExprAt(rn, ifs.Cond))
-				dt, _ := importedConst(p, "pkg/fuse", "github.com/jacobsa/fuse/fuseutil", "DT_Directory")
-				if dt != nil && d == "(("+oldEnt+".Type=="+constDesc(dt)+")&&(param#1.OldParent!=param#1.NewParent))" {
-					mv = ifs
-				}
+			if call, ok := n.(*ast.CallExpr); ok && calleeID(rn.Info(), call) == "pkg/fuse.fsMutable.insertLookupEntry" {
+				refAtoms, _ = atomsAt(rn, rn.Decl.Body, call.Pos())
 			}
 			return true
 		})
+		guardedMove := func(pos token.Pos) bool {
+			atoms, _ := atomsAt(rn, rn.Decl.Body, pos)
+			isDir, differ := false, false
+			for lit, at := range atoms {
+				be, ok := ast.Unparen(at.Expr).(*ast.BinaryExpr)
+				if !ok || (be.Op != token.EQL && be.Op != token.NEQ) {
+					if _, inRef := refAtoms[lit]; !inRef {
+						if _, isFlag := ast.Unparen(at.Expr).(*ast.Ident); !isFlag {
+							return false // an extra condition on the move
+						}
+					}
+					continue
+				}
+				holdsEq := (be.Op == token.EQL) != at.Neg // the atom states X == Y
+				x, y := nos(describeExprAt(rn, be.X)), nos(describeExprAt(rn, be.Y))
+				if dt != nil && holdsEq && ((x == nos(oldEnt+".Type") && y == constDesc(dt)) || (y == nos(oldEnt+".Type") && x == constDesc(dt))) {
+					isDir = true
+				}
+				isMoveCond := false
+				if dt != nil && holdsEq && ((x == nos(oldEnt+".Type") && y == constDesc(dt)) || (y == nos(oldEnt+".Type") && x == constDesc(dt))) {
+					isMoveCond = true
+				}
+				if !holdsEq && ((x == "param#1.OldParent" && y == "param#1.NewParent") || (x == "param#1.NewParent" && y == "param#1.OldParent")) {
+					differ = true
+					isMoveCond = true
+				}
+				if _, inRef := refAtoms[lit]; !inRef && !isMoveCond {
+					return false // an extra condition on the move
+				}
+			}
+			return isDir && differ
+		}
 		okMv := false
-		if mv != nil {
+		{
 			dec, inc := false, false
-			note := func(tok token.Token, d string) {
+			note := func(tok token.Token, d string, pos token.Pos) {
+				if !guardedMove(pos) {
+					return
+				}
 				if tok == token.DEC && d == "recv.iNodeStore.Get(call:pkg/fuse.formKey(param#1.OldParent))#0.(pkg/fuse.nodeEntry).attr.Nlink" {
 					dec = true
 				}
@@ -627,19 +663,19 @@ func checkNamespace(c *Ctx) {
 					inc = true
 				}
 			}
-			ast.Inspect(mv.Body, func(n ast.Node) bool {
+			ast.Inspect(rn.Decl.Body, func(n ast.Node) bool {
 				switch s := n.(type) {
 				case *ast.IncDecStmt:
-					note(s.Tok, describeExprAt(rn, s.X))
+					note(s.Tok, describeExprAt(rn, s.X), s.Pos())
 				case *ast.CallExpr:
 					// the same two steps in a helper of the receiver: its parameters stand for the arguments passed here
 					h := p.FuncOpt(calleeID(rn.Info(), s))
-					if h == nil || h.Decl.Body == nil || h.Decl.Recv == nil || !strings.HasPrefix(h.ID, "pkg/fuse.fsMutable.") {
+					if h == nil || h.Decl.Body == nil || h.Decl.Recv == nil || !strings.HasPrefix(h.ID, "pkg/fuse.fsMutable.") || h == rn {
 						return true
 					}
 					ast.Inspect(h.Decl.Body, func(m ast.Node) bool {
 						if t, ok := m.(*ast.IncDecStmt); ok {
-							note(t.Tok, substParams(describeExprAt(h, t.X), rn, s))
+							note(t.Tok, substParams(describeExprAt(h, t.X), rn, s), s.Pos())
 						}
 						return true
 					})
